@@ -11,7 +11,14 @@ ap = argparse.ArgumentParser()
 ap.add_argument("names", nargs="*")
 ap.add_argument("--props", default=None)
 ap.add_argument("--jobs", type=int, default=2)
+ap.add_argument("--by-files", action="store_true",
+                help="per patch, run only the checks of properties anchored in a file the patch touches (properties.jsonl)")
+ap.add_argument("--skip-tests", action="store_true")
 a = ap.parse_args()
+ANCHORS = {}
+for _l in open("/verif/properties.jsonl"):
+    _o = json.loads(_l)
+    ANCHORS[_o["id"]] = set(_o["anchors"]["files"])
 ALL = ["C%02d" % i for i in range(1, 21)]
 props = a.props.split(",") if a.props else ALL
 diffs = sorted(glob.glob("/verif/benign/*.diff"))
@@ -31,12 +38,17 @@ def run(diff):
             out["patch_failed"] = r.stdout + r.stderr
             return out
         env = dict(os.environ, PYTHONPATH=tmp, PYTHONDONTWRITEBYTECODE="1")
+        mine = props
+        if a.by_files:
+            touched = {l.split(" b/", 1)[1].strip() for l in open(diff) if l.startswith("diff --git ") and " b/" in l}
+            mine = [p_ for p_ in props if ANCHORS[p_] & touched]
+            out["checks_run"] = mine
         r = subprocess.run(["/venv/bin/python", "-m", "pytest", "-q", "-p", "no:cacheprovider", "--deselect",
                             "tests/test_parser.py::TestArgumentParsing::test_invalid_file_argument", "tests"],
                            cwd=tmp, env=env, capture_output=True, text=True)
         out["tests"] = r.stdout.strip().splitlines()[-1] if r.stdout.strip() else "?"
         env2 = dict(os.environ, VERIF_REPO=tmp, VERIF_WORKERS="8")
-        for p in props:
+        for p in mine:
             r = subprocess.run(["/venv/bin/python", "/verif/check.py", p, "--tier", "quick"], env=env2, capture_output=True, text=True)
             if r.returncode != 0:
                 out["alarms"][p] = {"exit": r.returncode, "lines": [l for l in r.stdout.splitlines() if l.startswith(("VIOLATION", "  signature", "  detail", "HARNESS"))][:9] or r.stdout[-800:].splitlines()}
